@@ -39,6 +39,34 @@ def jobs_for(tier, rng):
             m["pk"][s][a][e] -= 1
         gen.fix_dups(m)
         jobs.append({"mdp": m, "tol": tol})
+    # tolerances and deviations that differ by less than 1e-12 (fine units of 2^-41 on top of coarse dyadic numbers):
+    # "more than the tolerance" is a strict comparison at every scale.  Coarse parts tie (rows exact with tolerance 0,
+    # or off by exactly the coarse tolerance), the fine parts decide.
+    for k in range(24 if tier == "quick" else 300):
+        PD = rng.choice([4, 8, 16])
+        ne = rng.choice([2, 3])
+        m = T.random_mdp(rng, ns=rng.randint(1, 4), na=rng.randint(1, 2), ne=ne, PD=PD, rmax=3, plain_render=rng.random() < 0.5)
+        gen.fix_dups(m)
+        ns, na = m["ns"], m["na"]
+        fk = [[[0] * ne for _ in range(na)] for _ in range(ns)]
+        s, a = rng.randrange(ns), rng.randrange(na)
+        mode = k % 3
+        tol = [0, 1]
+        if mode > 0:
+            # coarse deviation of exactly 1/PD below (mode 1) or above (mode 2) one, coarse tolerance exactly 1/PD
+            tol = [1, PD]
+            if mode == 1:
+                e = max(range(ne), key=lambda x: m["pk"][s][a][x])
+                m["pk"][s][a][e] -= 1
+            else:
+                m["pk"][s][a][rng.randrange(ne)] += 1
+        f = rng.choice([-4, -2, -1, 0, 1, 2, 4])
+        e = max(range(ne), key=lambda x: m["pk"][s][a][x])          # a positive entry can carry a negative fine part
+        fk[s][a][e] = f
+        if rng.random() < 0.4 and ne > 1:
+            e2 = (e + 1) % ne
+            fk[s][a][e2] = rng.choice([0, 1, 2])
+        jobs.append({"mdp": m, "tol": tol, "fk": fk, "tf": rng.choice([0, 0, 1, 2, 3]), "K": 41})
     # a shipped problem through the same builder: Forest with a dyadic fire probability (tables = documented dynamics)
     for S, pk_, r1, r2 in ([(3, 1, 4.0, 2.0), (7, 2, 2.5, 8.0)] if tier == "quick" else
                           [(S, k, r1, r2) for S in (1, 2, 3, 5, 9, 16) for k in (0, 1, 3, 4) for r1, r2 in ((4.0, 2.0), (0.5, 16.0))]):
@@ -59,7 +87,7 @@ def run(tier):
                 "rows) that accumulation loses nothing, that matrices and functions define the same Bellman operator for "
                 "EVERY grid vector, and the error-iff-deviation rule; binding: real build_transition_and_reward_matrices on "
                 "seeded table MDPs (scalar and 1-element-array probabilities, multi-dimensional renderings, exact / "
-                "under-summing / over-summing / near-one rows, tolerances 0, 1e-4, 2^-13, 1/4) judged by MatricesTrace.tla: "
+                "under-summing / over-summing / near-one rows, tolerances 0, 1e-4, 2^-13, 1/4, and tolerance/deviation pairs that differ by a few units of 2^-41) judged by MatricesTrace.tla: "
                 "exact P and R, unit rows, or a ValueError naming a deviating pair. distinct = distinct (mdp, tolerance); "
                 "non-trivial = more than one event or a deficient row")
     res = C.run_tlc("Matrices", "Matrices.cfg" if tier == "quick" else "MatricesThorough.cfg",
